@@ -29,7 +29,8 @@ def build_tealer(ctx, src, name="c", stub=True):
 
 # shapes whose detect run needs the real block contexts: a retsub outside a subroutine is never reached by the path search because
 # the backward pass leaves its block with the empty context; with default contexts the search would run into it
-NEEDS_ANALYSIS = {"retsub in the main program", "retsub in the main program next to a subroutine"}
+NEEDS_ANALYSIS = {"retsub in the main program", "retsub in the main program next to a subroutine", "call as the last instruction, the callee returns",
+                  "group index computed by a subroutine"}
 # evaluated with the real analysis in the thorough tier only (cost)
 THOROUGH_ONLY = {"retsub in the main program next to a subroutine"}
 
@@ -83,7 +84,8 @@ def programs():
                   "subroutine before main", "subroutine that exits the program", "call inside a loop", "return point that is a jump target",
                   "mutual recursion", "fall off the end", "subroutine path falls off the end", "retsub in the main program",
                   "retsub in the main program next to a subroutine", "comments and blank lines", "version 3 program (no subroutines yet)",
-                  "program without a version line", "instructions the optimisation detectors report", "subroutine that jumps back to its own entry"):
+                  "program without a version line", "instructions the optimisation detectors report", "subroutine that jumps back to its own entry",
+                  "call as the last instruction, the callee returns", "group index computed by a subroutine"):
             PROGRAMS[k] = SHAPES[k]
     return PROGRAMS
 
